@@ -235,6 +235,15 @@ func f1Cases(tier string) []f1case {
 	for _, k := range intKinds {
 		vals := intVals(k)
 		vals = append(vals, val{name: "0x41", lit: "65"})
+		if k.bits == 64 {
+			// outside the int32 range, but the low 32 bits are a valid code point: must be U+FFFD
+			vals = append(vals, val{name: "1<<32|'A'", lit: "4294967361"}, val{name: "1<<40|0x20AC", lit: "1099511636140"}, val{name: "1<<31|'A'", lit: "2147483713"})
+			if k.signed {
+				vals = append(vals, val{name: "-(1<<32)+'A'", lit: "-4294967231"}, val{name: "-(1<<31)+'A'", lit: "-2147483583"})
+			} else {
+				vals = append(vals, val{name: "1<<63|'A'", lit: "9223372036854775873"})
+			}
+		}
 		if k.bits >= 32 {
 			vals = append(vals, val{name: "0xD800", lit: "55296"}, val{name: "0x10FFFF", lit: "1114111"}, val{name: "0x110000", lit: "1114112"}, val{name: "0x20AC", lit: "8364"})
 		}
